@@ -333,6 +333,11 @@ structure HandlerFacts where
       "the nested struct itself" exactly when `tail.is_empty()`, and otherwise forwards `tail`
       unchanged; plain fields and methods reject a non-empty `tail`; the head is `segments.split_first()` -/
   deriveTailTests : Bool
+  /-- the loops the property runs through (`handle_connection` of both TCP servers, `Next::run`,
+      `Router::get`, `dispatch_struct_segments`) contain no timer, sleep, retry or deadline arm other
+      than the three `timeout(dur, …)` of the async server that implement the configured read / write
+      timeouts: what is served does not depend on when the bytes arrive -/
+  serveLoopsHaveNoExtraTimers : Bool
   deriving Repr
 
 end Repe.Router
